@@ -24,12 +24,48 @@ class Defs:
                 self.mut_borrowed.add(rv['pl']['l'])
             if rv['r'] == 'rawptr' and not rv['pl']['p']:
                 self.mut_borrowed.add(rv['pl']['l'])
+        mutref = {}   # local holding `&mut X...`  ->  X
+        for bid, st in fn.stmts():
+            rv = st['rv']
+            if rv['r'] == 'ref' and rv['mut'] and not st['lhs']['p']:
+                mutref[st['lhs']['l']] = rv['pl']['l']
+        # reborrows / moves of mutable references
+        changed = True
+        while changed:
+            changed = False
+            for bid, st in fn.stmts():
+                rv = st['rv']
+                if st['lhs']['p'] or st['lhs']['l'] in mutref:
+                    continue
+                src = None
+                if rv['r'] == 'use' and rv['op']['k'] in ('copy', 'move') and not rv['op']['pl']['p']:
+                    src = rv['op']['pl']['l']
+                elif rv['r'] == 'ref' and rv['pl']['p'] and rv['pl']['p'][0] == '*':
+                    src = rv['pl']['l']
+                if src in mutref and fn.locals[st['lhs']['l']].startswith('&mut'):
+                    mutref[st['lhs']['l']] = mutref[src]
+                    changed = True
+        # `r = IndexMut::index_mut(&mut V, i)` / `DerefMut::deref_mut(&mut V)`: r points into V
+        for bid, t in fn.calls():
+            if re.search(r'ops::IndexMut::index_mut$|ops::DerefMut::deref_mut$|::as_mut$|::to_mut$|::last_mut$|::first_mut$|::get_mut$', cdef(t)) and t['args'] and not t['dest']['p']:
+                a0 = t['args'][0]
+                if a0['k'] in ('copy', 'move') and not a0['pl']['p'] and a0['pl']['l'] in mutref:
+                    mutref[t['dest']['l']] = mutref[a0['pl']['l']]
+        self.mutref = mutref
+        for bid, st in fn.stmts():
+            lhs = st['lhs']
+            if lhs['p'] and lhs['p'][0] == '*' and lhs['l'] in mutref:
+                self.partial[mutref[lhs['l']]].append(('assign', bid, st))
         for bid, t in fn.calls():
             d = t['dest']
             if d['p']:
                 self.partial[d['l']].append(('call', bid, t))
             else:
                 self.defs[d['l']].append(('call', bid, t))
+            # a callee receiving `&mut X` may overwrite X: record a partial definition of X
+            for a in t['args']:
+                if a['k'] in ('copy', 'move') and not a['pl']['p'] and a['pl']['l'] in mutref:
+                    self.partial[mutref[a['pl']['l']]].append(('call', bid, t))
 
 
 def must_images(fn, seeds, step, defs=None):
@@ -172,3 +208,36 @@ def phi_stable(fn, defs, l):
             if db == rb and di >= ri:
                 return False
     return True
+
+
+def backward_calls(fn, start_locals, is_stop_call):
+    """data-dependence walk backwards from `start_locals`: returns (stops, visited_calls) where
+    stops = calls (bid, term) satisfying is_stop_call that are reached first on some dependence
+    chain (the walk does not continue through them)"""
+    defs = Defs(fn)
+    seen = set()
+    work = list(start_locals)
+    stops = []
+    visited = []
+    while work:
+        l = work.pop()
+        if l in seen:
+            continue
+        seen.add(l)
+        for d in defs.defs.get(l, []) + defs.partial.get(l, []):
+            if d[0] == 'param':
+                continue
+            if d[0] == 'call':
+                t = d[2]
+                if is_stop_call(t):
+                    if (d[1], t) not in stops:
+                        stops.append((d[1], t))
+                    continue
+                visited.append((d[1], t))
+                for a in t['args']:
+                    if a['k'] in ('copy', 'move'):
+                        work.append(a['pl']['l'])
+            else:
+                for pl in stmt_reads(d[2]):
+                    work.append(pl['l'])
+    return stops, visited
